@@ -119,8 +119,8 @@ func (w *World) Rel(t time.Time) int {
 func (w *World) Obs(s *peerstore.LocalStore, now time.Time) []any {
 	type ent struct {
 		h, p, a string
-		c      bool
-		e      int
+		c       bool
+		e       int
 	}
 	var ents []ent
 	gl := map[string]int{}
@@ -188,6 +188,7 @@ type GateClock struct {
 	inspect bool
 	spin    time.Duration
 	armed   byte
+	stale   bool // the parked caller gets the time it asked for when it arrived, not the time of its release
 	reached chan struct{}
 	hold    chan struct{}
 	Seq     []byte // caller kinds since the last Arm/ResetSeq (only while inspecting)
@@ -218,9 +219,20 @@ func (g *GateClock) Arm(kind byte) (reached <-chan struct{}, hold chan<- struct{
 	return g.reached, g.hold
 }
 
+// ArmStale is Arm, except that the parked caller is answered with the time at which it arrived: the harness may
+// move the clock while it is parked (a caller that is slow between reading the clock and using the value).
+func (g *GateClock) ArmStale(kind byte) (reached <-chan struct{}, hold chan<- struct{}) {
+	r, h := g.Arm(kind)
+	g.mu.Lock()
+	g.stale = true
+	g.mu.Unlock()
+	return r, h
+}
+
 // Disarm stops inspecting callers.
 func (g *GateClock) Disarm() {
 	g.mu.Lock()
+	g.stale = false
 	g.armed, g.inspect, g.spin = 0, false, 0
 	g.mu.Unlock()
 }
@@ -288,11 +300,15 @@ func (g *GateClock) Now() time.Time {
 		reached, hold = g.reached, g.hold
 		g.armed = 0
 	}
-	spin := g.spin
+	spin, stale := g.spin, g.stale
 	g.mu.Unlock()
 	if reached != nil {
+		t := g.Mock.Now()
 		close(reached)
 		<-hold
+		if stale {
+			return t
+		}
 	} else if spin > 0 && (k == KEntries || k == KGroups) {
 		for t0 := time.Now(); time.Since(t0) < spin; {
 			runtime.Gosched()
